@@ -179,6 +179,11 @@ def oracles(q, a):
             if any(ch in "Cc" for ch in E):
                 out.append(("C11", "cb-buffer", "table holds a callback buffer without callback"))
         else:
+            if q.api == 1:
+                # table API: every symbol of the table is received by the one call, so no callback may name one of them
+                both = sorted(set(ev_esis) & set(q.esis))
+                if both:
+                    out.append(("C11", "cb-for-received", "callback invoked for source symbol(s) %s although they were in the submitted table" % both))
             if sorted(ev_esis) != sorted(decoded):
                 out.append(("C11", "cb-multiset", "callback ESIs %s, decoded (not received) sources %s" % (sorted(ev_esis), sorted(decoded))))
             for x in ev:
